@@ -95,11 +95,11 @@ Fixpoint unm_pinned (fuel : nat) (t : ty) (x : pv) {struct fuel} : res pv :=
     | TNone => none_u rt x
     | TSeq k a =>
         bind (load rt x) (fun d => bind (itervalues rt d) (fun vs =>
-        bind (mapM (unm_pinned n a) vs) (fun rs => construct_seq rt k rs)))
+        bind (mapM (elem_conv rt k (unm_pinned n a)) vs) (fun rs => construct_seq rt k rs)))
     | TMap k kt vt =>
         bind (load rt x) (fun d => bind (iteritems rt E d) (fun kvs =>
-        bind (mapM (fun kv => bind (unm_pinned n kt (fst kv)) (fun k' =>
-                              bind (unm_pinned n vt (snd kv)) (fun v' => Ok (k', v')))) kvs)
+        bind (mapM (hashing rt fst (fun kv => bind (unm_pinned n kt (fst kv)) (fun k' =>
+                              bind (unm_pinned n vt (snd kv)) (fun v' => Ok (k', v'))))) kvs)
              (fun rs => construct_map rt k rs)))
     | TTuple ts =>
         bind (load rt x) (fun d => bind (itervalues rt d) (fun vs =>
